@@ -277,6 +277,11 @@ def _run(V, work, tier):
                       {"src": rrecs[2 * i]["seq"], "cfg": {"maxalloc": 5}})
                 break
     V.coverage["refused_mutators"] = len(refusals)
+    # ---- the registry-wide sweep: only the callables documented as mutating (the constant MUTATORS of Launder.tla) change a
+    # value that existed before the call, and they change exactly the value they were handed - for EVERY callable of the
+    # language package and the standard library, each kind of runtime container in each argument position
+    import launder
+    launder.sweep(V, work, binary, tier, {"target", "other"})
     V.coverage["exhaustive"] = False
     V.coverage["explanation"] = "exhaustive model checking of all 2-operation histories; %d distinct simulated histories of 5-6 operations replayed with every variable re-inspected after every step" % len(uniq)
     V.assumptions += ["byte strings have their own model (Bytes.tla) without views"]
